@@ -118,7 +118,9 @@ Inductive kop : Type :=
 Definition k_step (st : hskip) (e : env) (o : kop) : hskip * env * kout :=
   match o with
   | KNext sizes => k_next st e sizes
-  | KSkipN n => k_skipn st e n
+  | KSkipN n =>
+    (* a direct SkipN may move or overwrite the buffer of the last result: it is no longer live *)
+    let '(st', e', o) := k_skipn (mkK (kb st) (kn st) (ksrc st) None (kstart st)) e n in (st', e', o)
   | KReset s => (k_reset st s, e, KUnit)
   end.
 
